@@ -6,7 +6,11 @@ from core import Case, nlist
 from pyerr import canon_call
 
 PROP = 'C08'
-COQ_TARGETS = ['theories/NpciFacts.vo', 'theories/NpciMsgFacts.vo', 'theories/NpciSound.vo']
+COQ_TARGETS = ['theories/NpciFacts.vo', 'theories/NpciMsgFacts.vo', 'theories/NpciSound.vo', 'theories/NpciBodyFacts.vo',
+               'theories/NpciRegistry.vo']
+TABLE_OBLIGATIONS = ['NpciRegistry.registry_table_exact', 'NpciRegistry.registry_keys', 'NpciRegistry.registry_message_type',
+                     'NpciRegistry.registry_ctor_message', 'NpciRegistry.registry_fields_arity', 'NpciRegistry.registry_nodup',
+                     'NpciRegistry.registry_dispatch', 'NpciRegistry.registry_class']
 COQ_IMPORTS = 'From Bac Require Import Base Npci.'
 RULE = ('cases: NPDU.encode over expecting-reply x priority 0..3 x DADR {none, station 1/6/255 octets, remote broadcast, global} x '
         'SADR {none, station 1/6/255} x hop {0,1,254,255} x message {none, 0, 0x13, 0x7f, 0x80+vendor, 0xff+vendor} (quick: hop cycled, '
@@ -16,9 +20,11 @@ RULE = ('cases: NPDU.encode over expecting-reply x priority 0..3 x DADR {none, s
         'deletions / insertions / truncations of valid frames; the 12 messages: network lists of length 0..20, routing tables with 0..5 '
         'entries and port-info length {0,1,2,255,256}, boundary nets/octets, decode of bodies of length <= 1 (32 per type quick, all thorough) and sampled 2..6 under '
         'each of the 12 types, npdu_types lookup for all 256 type codes, whole frames (message.encode + NPDU.encode, NPDU.decode + '
-        'npdu_types dispatch).  non-trivial = encode input with at least one optional field / parameter, or decode input of >= 3 octets; '
+        'npdu_types dispatch); histories: for each of the 12 classes several decodes (and a default-constructed encode) in a row, and mixed '
+        'histories over all classes and header decodes, every object canonicalised only at the END of its history.  non-trivial = encode input with at least one optional field / parameter, or decode input of >= 3 octets; '
         'distinct by (operation, input).')
-TRUSTED = ['model coq/theories/Npci.v written by hand after npdu.py:76-204,263-269,318-798 and comm.py PDUData; tie = in-kernel correspondence on every run',
+TRUSTED = ['translator/gen_npdu.py: npdu.npdu_types, messageType, constructor message type, _debug_contents -> coq/gen/NpduRegistry.v (table obligations in NpciRegistry.v)',
+           'model coq/theories/Npci.v written by hand after npdu.py:76-204,263-269,318-798 and comm.py PDUData; tie = in-kernel correspondence on every run',
            'spec6_2 (Npci.v) and the harness reference layout/parser ref_layout/ref_parse are independent transcriptions of clause 6.2 (figure 6-1, 6.2.2)']
 ASSUMPTIONS = ['bytes/bytearray hold octets < 256 (CPython)',
                'header fields are non-negative ints or None (negative ints are not modelled)',
@@ -288,6 +294,68 @@ def impl_dec_frame(octets):
         o.decode(n)
         return n, o
     return canon_call(f, lambda r: [r[0].npduControl] + canon_npci(r[1]) + canon_msgobj(r[1]) + canon_rest(r[0].pduData))
+
+
+def coq_op(o):
+    if o[0] == 'decmsg': return '(OpDecMsg %s %s)' % (cN(o[1]), nlist(o[2]))
+    if o[0] == 'decnpdu': return '(OpDecNpdu %s)' % nlist(o[1])
+    if o[0] == 'encmsg': return '(OpEncMsg %s)' % coq_msg(o[1])
+    if o[0] == 'encdefault': return '(OpEncMsg %s)' % coq_msg(DEFAULTS[o[1]])
+    raise ValueError(o)
+
+
+# what a default-constructed object of these classes stands for
+DEFAULTS = {'whois': ('whois', None), 'iam': ('iam', []), 'busy': ('busy', []), 'avail': ('avail', []),
+            'irt': ('irt', []), 'irta': ('irta', []), 'what': ('what',)}
+
+
+def impl_history(ops):
+    """run the operations one after the other in this process, keep every object, canonicalise them all only
+    afterwards (so that an earlier result changed by a later operation shows)"""
+    from bacpypes import npdu as N
+    from bacpypes.pdu import PDU
+    kept = []
+    for o in ops:
+        try:
+            if o[0] == 'decmsg':
+                n = N.NPDU(bytes(o[2]))
+                n.npduNetMessage = o[1]
+                obj = N.npdu_types[o[1]]()
+                obj.decode(n)
+                kept.append(('decmsg', obj, n))
+            elif o[0] == 'decnpdu':
+                n = N.NPDU()
+                n.decode(PDU(bytes(o[1])))
+                kept.append(('decnpdu', n))
+            else:
+                obj = mk_msg(o[1]) if o[0] == 'encmsg' else getattr(N, NAME_OF_KIND[o[1]])()
+                n = N.NPDU()
+                obj.encode(n)
+                kept.append(('enc', n))
+        except RecursionError:
+            raise
+        except Exception as e:
+            from pyerr import exc_code
+            kept.append(('err', exc_code(e)))
+    out = [len(kept)]
+    for k in kept:
+        if k[0] == 'err':
+            c = [1, k[1]]
+        elif k[0] == 'decmsg':
+            c = [0] + canon_msgobj(k[1]) + canon_rest(k[2].pduData)
+        elif k[0] == 'decnpdu':
+            c = [0, k[1].npduControl] + canon_npci(k[1]) + canon_rest(k[1].pduData)
+        else:
+            c = [0] + list(k[1].pduData)
+        out += [len(c)] + c
+    return out
+
+
+def case_history(ops, kind='history'):
+    exp = impl_history(ops)
+    d = [[o[0]] + [bytes(x).hex() if isinstance(x, (bytes, bytearray)) else (descM(x) if isinstance(x, tuple) else x) for x in o[1:]] for o in ops]
+    return Case(kind, 'canon_history (run_history [%s])' % '; '.join(coq_op(o) for o in ops), exp,
+                key=('hist', repr(ops)), nontrivial=len(ops) >= 2, desc={'op': 'history', 'ops': d})
 
 
 # ---- cases
@@ -575,6 +643,11 @@ def wf_messages(rng, big):
         for rep in range(4 if big else 2):
             out.append(('irt', rtable(rng, k)))
             out.append(('irta', rtable(rng, k)))
+    # an entry with port info followed by entries without, and the other way round
+    for kind in ('irt', 'irta'):
+        out.append((kind, [(5, 1, b'ab'), (6, 2, b'')]))
+        out.append((kind, [(5, 1, rmac(rng, 3)), (6, 2, b''), (7, 3, b''), (8, 4, rmac(rng, 1))]))
+        out.append((kind, [(5, 1, b''), (6, 2, rmac(rng, 2)), (7, 3, b'')]))
     out.append(('irt', rtable(rng, 255, lens=(0, 1, 2))))
     out.append(('irta', [(7, 3, rmac(rng, 255))] * 2))
     return out
@@ -587,6 +660,62 @@ def malformed_messages(rng):
             ('irt', [(5, 256, b'')]), ('irt', [(5, 1, rmac(rng, 256))]), ('irta', [(70000, 1, b'ab')]),
             ('irt', [(5, 1, b'a'), (6, 300, b'b')]), ('irta', [(5, 1, rmac(rng, 256)), (6, 300, b'')]),
             ('irt', rtable(rng, 256, lens=(0,))), ('irta', rtable(rng, 257, lens=(0, 1)))]
+
+
+def class_bodies(rng):
+    """per message kind: a few (message, encoded body) pairs, non-empty ones first"""
+    per = {k: [] for k in KINDS}
+    for M in wf_messages(rng, False):
+        if M[0] in ('irt', 'irta') and len(M[1]) > 6:
+            continue
+        e = impl_enc_msg(M)
+        if e[0] == 0:
+            per[M[0]].append((M, bytes(e[1:])))
+    for k in per:
+        rng.shuffle(per[k])
+        per[k].sort(key=lambda mb: len(mb[1]) == 0)      # empty bodies last
+    return per
+
+
+def histories(rng, big):
+    per = class_bodies(rng)
+    out = []
+    # every class on its own: several decodes in a row, then (where the class can be built without
+    # arguments) an encode of a default-constructed object, then one more decode
+    for k in KINDS:
+        t = CODE_OF_KIND[k]
+        for rep in range(6 if big else 3):
+            pick = [rng.choice(per[k][:max(1, len(per[k]) // 2)])] + [rng.choice(per[k]) for _ in range(rng.randrange(2, 5))]
+            ops = [('decmsg', t, b) for _, b in pick]
+            if rep % 3 == 1:
+                ops.insert(1, ('decmsg', t, mutate(rng, pick[0][1])))       # a refused decode in between
+            if k in DEFAULTS:
+                ops.append(('encdefault', k))
+                ops.append(('decmsg', t, rng.choice(per[k])[1]))
+                ops.append(('encdefault', k))
+            else:
+                ops.append(('encmsg', rng.choice(per[k])[0]))
+            out.append(ops)
+    # mixed histories over all classes, header decodes and encodes
+    hdrs = [ref_layout(H) + rmac(rng, rng.randrange(3)) for H in itertools.islice(wf_headers(rng, False), 0, None, 37)
+            if (H[3] is None or len(H[3]) < 3 or len(H[3][2]) < 50) and (H[4] is None or len(H[4][2]) < 50)]
+    for _ in range(200 if big else 50):
+        ops = []
+        for _ in range(rng.randrange(4, 10)):
+            k = rng.choice(KINDS)
+            r = rng.random()
+            if r < 0.6:
+                ops.append(('decmsg', CODE_OF_KIND[k], rng.choice(per[k])[1]))
+            elif r < 0.7:
+                ops.append(('decmsg', CODE_OF_KIND[k], mutate(rng, rng.choice(per[k])[1])))
+            elif r < 0.8:
+                ops.append(('decnpdu', rng.choice(hdrs)))
+            elif r < 0.9 and k in DEFAULTS:
+                ops.append(('encdefault', k))
+            else:
+                ops.append(('encmsg', rng.choice(per[k])[0]))
+        out.append(ops)
+    return out
 
 
 def cases(rng, tier):
@@ -683,6 +812,8 @@ def cases(rng, tier):
             out.append(case_dec_frame(fb, 'frame-dec-mutated'))
         else:
             out.append(case_dec(fb, 'dec-mutated'))
+    for ops in histories(rng, big):
+        out.append(case_history(ops))
     return spread_heavy(out)
 
 
@@ -796,6 +927,66 @@ def check_msg_roundtrip(H, M):
     return None
 
 
+def check_history(pairs, kind):
+    """decode the bodies one after the other through the registry (default-constructed objects); afterwards
+    EVERY decoded object must still carry exactly the parameters of its own message, and a default-constructed
+    object of the class must still be empty"""
+    from bacpypes import npdu as N
+    d = {'kind': 'history-dependent', 'class': NAME_OF_KIND[kind], 'history': [descM(M) for M, _ in pairs],
+         'bodies': [bytes(b).hex() for _, b in pairs]}
+    objs = []
+    try:
+        for M, body in pairs:
+            n = N.NPDU(bytes(body))
+            n.npduNetMessage = CODE_OF_KIND[kind]
+            o = N.npdu_types[CODE_OF_KIND[kind]]()
+            o.decode(n)
+            objs.append(o)
+        fresh = None
+        if kind in DEFAULTS:
+            n = N.NPDU()
+            getattr(N, NAME_OF_KIND[kind])().encode(n)
+            fresh = bytes(n.pduData)
+    except Exception as e:
+        return dict(d, kind='history-exception', exc=type(e).__name__)
+    for i, ((M, _), o) in enumerate(zip(pairs, objs)):
+        if canon_msgobj(o) != canon_msgspec(M):
+            return dict(d, index=i, decoded=canon_msgobj(o)[:40], want=canon_msgspec(M)[:40])
+    want_fresh = {'irt': b'\x00', 'irta': b'\x00'}.get(kind, b'')
+    if fresh is not None and fresh != want_fresh:
+        return dict(d, index=-1, default_constructed_encodes_to=fresh.hex())
+    return None
+
+
+FIXED_KINDS = ('icb', 'rej', 'irt', 'irta', 'est', 'disc', 'nni')
+
+
+def check_body_prefix(M, body, k):
+    """the first k < len(body) octets of an encoded body: fixed-layout messages must be refused with DecodingError;
+    a network list cut at an odd offset (or a Who-Is-Router network cut after one octet) likewise; a list cut on
+    an element boundary must decode to exactly the shorter list"""
+    from bacpypes import npdu as N
+    from bacpypes.errors import DecodingError
+    kind = M[0]
+    d = {'msg': descM(M), 'body': bytes(body).hex(), 'cut': k}
+    must_refuse = kind in FIXED_KINDS or (k % 2 == 1)
+    try:
+        n = N.NPDU(bytes(body[:k]))
+        n.npduNetMessage = CODE_OF_KIND[kind]
+        o = N.npdu_types[CODE_OF_KIND[kind]]()
+        o.decode(n)
+    except DecodingError:
+        return None if must_refuse else dict(d, kind='body-prefix-refused-on-element-boundary')
+    except Exception as e:
+        return dict(d, kind='truncated-body-other-error', exc=type(e).__name__)
+    if must_refuse:
+        return dict(d, kind='truncated-body-not-refused', decoded=canon_msgobj(o)[:40])
+    want = (kind, list(M[1])[:k // 2]) if kind in ('iam', 'busy', 'avail') else ('whois', None)
+    if canon_msgobj(o) != canon_msgspec(want):
+        return dict(d, kind='truncated-body-misread', decoded=canon_msgobj(o)[:40], want=canon_msgspec(want)[:40])
+    return None
+
+
 def direct(rng, tier, focus=()):
     big = tier == 'thorough'
     failures, nontriv, samples = [], set(), []
@@ -869,6 +1060,23 @@ def direct(rng, tier, focus=()):
             n += 1
             add(check_msg_roundtrip(random_wf_header(rng, 0), M))
             nontriv.add(('msg', repr(M)))
+    # 3b. histories: several messages of each class decoded in one process
+    per = class_bodies(rng)
+    for k in KINDS:
+        for rep in range(40 if big else 10):
+            pairs = [rng.choice(per[k][:max(1, len(per[k]) // 2)])] + [rng.choice(per[k]) for _ in range(rng.randrange(1, 5))]
+            n += 1
+            add(check_history(pairs, k))
+            nontriv.add(('hist', k, repr([m for m, _ in pairs])))
+    # 3c. message bodies cut short
+    for k in KINDS:
+        for M, body in per[k][:(40 if big else 12)]:
+            cuts = range(len(body)) if len(body) <= 48 else sorted(set([0, 1, 2, 3, 4, 5, len(body) - 2, len(body) - 1]
+                                                                        + [rng.randrange(len(body)) for _ in range(8)]))
+            for c in cuts:
+                n += 1
+                add(check_body_prefix(M, body, c))
+    samples.append({'direct': 'history of decodes per class', 'example': [descM(('avail', [1, 2])), descM(('avail', [3]))]})
     samples.append({'direct': 'message roundtrip through npdu_types', 'example': descM(('irt', [(5, 1, b'\x01\x02')]))})
     # 4. focus: whatever the correspondence disagreed on
     for d in focus:
@@ -923,6 +1131,12 @@ def replay(payload):
         print('reference reading :', ref_parse(bs)[:2])
         print('implementation    : NPDU.decode ->', impl_dec_npdu(bs))
         print('direct predicate  :', check_octets(bs))
+    elif 'cut' in f and 'body' in f:
+        print('direct predicate  :', check_body_prefix(_undescM(f['msg']), bytes.fromhex(f['body']), f['cut']))
+    elif 'history' in f and 'bodies' in f:
+        kind = KINDS[NAMES.index(f['class'])]
+        pairs = [(_undescM(m), bytes.fromhex(b)) for m, b in zip(f['history'], f['bodies'])]
+        print('direct predicate  :', check_history(pairs, kind))
     elif 'msg' in f and 'header' in f:
         H, M = _undescH(f['header']), _undescM(f['msg'])
         print('implementation    : frame ->', impl_enc_frame(H, M))
